@@ -963,7 +963,10 @@ PROPS["C08"] = {
     "partial": ["the theorem covers the 1-D state model (T, Phi, E, P, R, 1-D shift with truncation, Spoiler, Reset, PD, Wait); "
                 "coordinate tables with integer shifts along any number of axes, with or without a state cap, stay well-formed "
                 "(`C04.wfn_init / wfn_point / wfn_shift`, `C13Cap.wfn_capShift`, carried through whole programs by `get_capRun`); "
-                "gridded (real-valued) shifts, D and X are covered by the search on the real code only"],
+                "gridded (real-valued) shifts: merging the states of one grid cell keeps the conjugate mirror whenever the cell map is odd on a "
+                "symmetric set of stored wavenumbers (`C08Merge.merge_wellformed`, `merge_centre_real`), and the package's cell index "
+                "(round half away from zero, text tied in ShiftSites) is odd (`cellIndex_odd`); that the code's index arithmetic is this "
+                "merge, and D and X, are covered by the search on the real code only"],
 }
 
 DIFF_PARTIAL = ["proved: (i) every coefficient's symbolic derivative is its derivative, also as a total derivative along a curve in "
@@ -974,9 +977,14 @@ DIFF_PARTIAL = ["proved: (i) every coefficient's symbolic derivative is its deri
                 "(v) second order: for RF pulses and relaxation intervals whose parameters depend (non-linearly) on two variables, the "
                 "value stored under (a, b) is the derivative with respect to b of the new first partial under a "
                 "(`T_mixed_partial_exact_nl`, `E_mixed_partial_exact_nl`), lifted by induction to whole programs of pulses, "
-                "relaxation intervals and shifts (`C03Prog.hessian_exact`); diagonal pair for one RF step. "
-                "Not stated as theorems: second-order steps of P / R / Phi, the diagonal pair over whole programs; those are "
-                "exercised by the jet-specification search"]
+                "relaxation intervals and shifts (`C03Prog.hessian_exact`); the diagonal pair (a, a), one variable driving all parameters "
+                "non-linearly, for RF pulses (`T_diag_partial_exact_nl`) and relaxation intervals (`E_diag_partial_exact_nl`), "
+                "lifted to whole programs of pulses, relaxation intervals and shifts (`C03Diag.hessian_diag_exact` with `step1T`, "
+                "`step1E`, `step1Shift`); precession intervals: `P_mixed_partial_exact_nl` and the program step `stepP` (so "
+                "`hessian_exact` covers programs of pulses, relaxation, precession, phase offsets and shifts: `Phi_mixed_partial_exact_nl`, "
+                "`stepPhi`; R with real parameters: `R_mixed_zero`, `R_mixed_partial_exact_nl`, `stepR`). Not stated as theorems: R with a "
+                "complex rT (known finding F20: the bookkeeping is real-linear); exercised by the "
+                "jet-specification search"]
 for _p, _run, _tie in (("C02", run_C02, TIE_OP + TIE_D1), ("C03", run_C03, TIE_OP + TIE_D1 + TIE_D2), ("C19", run_C19, TIE_OP)):
     PROPS[_p] = {
         "lean_modules": [f"EpgVerif.Props.{_p}"],
@@ -1191,12 +1199,12 @@ PROPS["C09"] = {
 EXTRA_MODULES = {
     "C01": ["EpgVerif.Tie.ApplySites"],
     "C02": ["EpgVerif.Tie.DiffSites", "EpgVerif.Props.C02Run", "EpgVerif.Props.C02Fam"],
-    "C03": ["EpgVerif.Tie.DiffSites", "EpgVerif.Props.C03Run", "EpgVerif.Props.C03Gen", "EpgVerif.Props.C03E", "EpgVerif.Props.C03Prog", "EpgVerif.Props.C03Diag"],
+    "C03": ["EpgVerif.Tie.DiffSites", "EpgVerif.Props.C03Run", "EpgVerif.Props.C03Gen", "EpgVerif.Props.C03E", "EpgVerif.Props.C03Prog", "EpgVerif.Props.C03Diag", "EpgVerif.Props.C03EDiag", "EpgVerif.Props.C03P", "EpgVerif.Props.C03Phi", "EpgVerif.Props.C03R"],
     "C04": ["EpgVerif.Tie.ShiftSites", "EpgVerif.Props.C04Multi"],
     "C05": ["EpgVerif.Tie.PhysSites", "EpgVerif.Props.C05Path", "EpgVerif.Props.C05Att"],
     "C06": ["EpgVerif.Tie.PhysSites", "EpgVerif.Tie.Exchange"],
     "C07": ["EpgVerif.Tie.ApplySites"],
-    "C08": ["EpgVerif.Tie.ApplySites", "EpgVerif.Props.C04", "EpgVerif.Props.C13Cap"],
+    "C08": ["EpgVerif.Tie.ApplySites", "EpgVerif.Tie.ShiftSites", "EpgVerif.Props.C04", "EpgVerif.Props.C13Cap", "EpgVerif.Props.C08Merge"],
     "C09": ["EpgVerif.Tie.PuritySites"],
     "C10": ["EpgVerif.Tie.ApplySites", "EpgVerif.Props.C10Second"],
     "C11": ["EpgVerif.Tie.SeqSites", "EpgVerif.Props.C11Run", "EpgVerif.Props.C11Bind"],
